@@ -171,6 +171,15 @@ func (st *fragState) apply(op []string, o *hx.Out) {
 			res := st.drain()
 			hx.Reclaim() // the inner swarm's buffer is reused once its callback has returned
 			return res
+		case "frag-recv-at":
+			// oracle only: the datagram arrives from the node at in-memory address <N>, whichever that is
+			ctx, cf := context.WithTimeout(st.ctx, 2*time.Second)
+			defer cf()
+			fragswarm.VerifHandleTell(ctx, st.frecv, p2p.Message[memswarm.Addr]{
+				Src: memswarm.Addr{N: atoi(op[1])}, Dst: st.addrs[nFragSenders], Payload: hx.Lend(hx.UnHex(op[2]))})
+			res := st.drain()
+			hx.Reclaim()
+			return res
 		case "frag-naggs":
 			return strconv.Itoa(fragswarm.VerifNumAggregators(st.frecv))
 		case "mb-new":
@@ -468,13 +477,14 @@ func fragStream(r *rand.Rand, n int, tier string, o *hx.Out) {
 // a message none of whose ... fragments was withheld is delivered, a message with a withheld fragment never is;
 // a payload no longer than MTU() is accepted and one longer is refused with the MTU error; nothing panics.
 var limitDone = map[string]bool{}
+var prefixAddrDone bool
 
 func fragOracle(r *rand.Rand, n int, tier string, infile string) (cases int, fails []string) {
 	o := hx.NewOut("/dev/null", 0)
 	defer o.Close("")
 	st := &fragState{}
 	defer st.reset()
-	for cases < n || oracleOffset == 0 && !(limitDone["frag"] && limitDone["mb"]) {
+	for cases < n || oracleOffset == 0 && !(limitDone["frag"] && limitDone["mb"] && prefixAddrDone) {
 		kind := hx.Pick(r, "frag", "mb")
 		if oracleOffset == 0 {
 			// the limit case of both layers runs first, whatever the number of cases asked for (one of them is tens of
@@ -547,6 +557,46 @@ func fragOracle(r *rand.Rand, n int, tier string, infile string) (cases int, fai
 					} else if got != 1 || wrong != 0 {
 						bad("%s payload of exactly MTU()=%d bytes at one byte per part, every fragment handed over once and in order: %d deliveries, %d of them not the told payload", kind, lim, got, wrong)
 					}
+				}
+			}
+			continue
+		}
+		if oracleOffset == 0 && !prefixAddrDone {
+			// partial messages are kept per (source, message id). Two sources whose address texts run together with their
+			// ids to the same string — the node at address N with id 23, the node at address N*10+2 with id 3 — are
+			// different sources: one fragment of each, at complementary positions, completes nothing.
+			prefixAddrDone = true
+			run := func(op string) string {
+				cases++
+				if len(op) < 60 {
+					hist = append(hist, op)
+				}
+				st.apply(strings.Fields(op), o)
+				return o.Last()
+			}
+			run("frag-new 40 3000")
+			n1 := st.addrs[1].N
+			twoParts := func(sender, before int, c0, c1 byte) (p0, p1 string) {
+				for i := 0; i < before; i++ {
+					run(fmt.Sprintf("frag-tell %d x00", sender))
+				}
+				msg := append(bytes.Repeat([]byte{c0}, 25), bytes.Repeat([]byte{c1}, 15)...)
+				for _, p := range strings.Split(strings.TrimPrefix(run(fmt.Sprintf("frag-tell %d %s", sender, hx.Hex(msg))), "pkts "), ",") {
+					if strings.HasSuffix(p, hx.Hex([]byte{c0})[1:]) {
+						p0 = p
+					} else if strings.HasSuffix(p, hx.Hex([]byte{c1})[1:]) {
+						p1 = p
+					}
+				}
+				return
+			}
+			x0, _ := twoParts(1, 23, 'A', 'B')
+			_, y1 := twoParts(2, 3, 'c', 'd')
+			if n1 >= 1 && x0 != "" && y1 != "" {
+				d1 := run(fmt.Sprintf("frag-recv-at %d %s", n1, x0))
+				d2 := run(fmt.Sprintf("frag-recv-at %d %s", n1*10+2, y1))
+				if d1 != "none" || d2 != "none" {
+					bad("C10 frag: part 0 of message 23 from the node at address %d and part 1 of message 3 from the node at address %d were combined: %s %s", n1, n1*10+2, d1, d2)
 				}
 			}
 			continue
